@@ -113,6 +113,9 @@ def run(ctx):
     ph = one(lambda m: m is not des and any(isinstance(n, ast.Attribute) and n.attr == 'ABOVE_LIMIT_CONTENT' for n in ast.walk(m.node)) and
              any(isinstance(n, ast.Return) and isinstance(n.value, ast.Dict) for n in ast.walk(m.node)), 'placeholder result')
     gps = [m for m in fi.methods.values() if m.name != '__init__' and any(self_attr(n) == 'file_path_arg_name' for n in ast.walk(m.node))]
+    # (a copy of the lookup that a handler subclass keeps for itself - written in place there and taken out by the normaliser - is judged like the shared one)
+    gps += [m for c_ in (inp, outp) for m in c_.methods.values() if m.cls is c_ and m.name.endswith('__outlined') and
+            any(self_attr(n) == 'file_path_arg_name' for n in ast.walk(m.node))]
     if not gps:
         raise AnalysisError('anchor-lost role=path function (candidates [])')
     gp = gps[0]
@@ -456,6 +459,12 @@ def run(ctx):
     for nm, m in users.items():
         calls = [n for n in ast.walk(m.node) if isinstance(n, ast.Call) and self_attr(n.func) in [g.name for g in gps]]
         ok = len(calls) == 1 and [norm(a) for a in calls[0].args] == [m.params[-2], m.params[-1]]
+        if not ok and len(calls) == 1 and self_attr(calls[0].func).endswith('__outlined'):
+            # the lookup written in place and taken out again by the normaliser: the synthetic function's parameters are the caller's own
+            # names (in order of first use), so each is handed the caller's variable of the same name
+            g_ = (m.cls.lookup(self_attr(calls[0].func)) if m.cls is not None else None) or [g for g in gps if g.name == self_attr(calls[0].func)][0]
+            ok = [norm(a) for a in calls[0].args] == [p_ for p_ in g_.params if p_ != 'self'] and \
+                set(norm(a) for a in calls[0].args) == {m.params[-2], m.params[-1]}
         cd.instance('%s takes the path from %s(args, kwargs) of the current call' % (nm, '/'.join(g.name for g in gps)), m.qualname, ok)
         if not ok:
             res.add(Finding('C20', 'C20.d', 'R-PROV', m.file, m.qualname, m.node.lineno, 'path source of %s' % nm, '%s does not obtain the path from the shared path function applied to the current call\'s arguments' % nm))
